@@ -2,6 +2,7 @@ import Driver.Basic
 import Driver.C35
 import Driver.C01
 import Driver.C03
+import Driver.C04
 import Driver.C05
 import Driver.C06
 import Driver.C07
@@ -37,6 +38,7 @@ def step (line : String) : String :=
   | "C01" :: ts => stepC01 ts
   | "C02" :: ts => stepC02 ts
   | "C03" :: ts => stepC03 ts
+  | "C04" :: ts => stepC04 ts
   | "C05" :: ts => stepC05 ts
   | "C06" :: ts => stepC06 ts
   | "C07" :: ts => stepC07 ts
